@@ -234,6 +234,11 @@ fn reference(c: &Case, dir: &Path) -> Verdict {
         if loc.split('/').any(|p| p == "..") {
             return Verdict::MustErr("parent-directory component");
         }
+        let mut parts = loc.split('/');
+        let first = parts.next().unwrap_or("");
+        if !first.is_empty() && first != "." && parts.all(|p| p.is_empty() || p == ".") {
+            return Verdict::MustErr("separator after the file name ('name/' or 'name/.')");
+        }
         return Verdict::MustErr("more than a single plain file name");
     }
     if loc == "." || loc == ".." {
@@ -271,6 +276,9 @@ fn reference(c: &Case, dir: &Path) -> Verdict {
         return Verdict::MustErr("file does not exist / is not a regular file");
     };
     if off + len > file.len() as u128 {
+        if len == 0 {
+            return Verdict::MustErr("zero-length range that starts beyond the end of the file");
+        }
         return Verdict::MustErr("byte range outside the file");
     }
     let elems: Option<u128> = c.dims.iter().try_fold(1u128, |a, d| if *d < 0 { None } else { Some(a * *d as u128) });
